@@ -85,6 +85,8 @@ func VerifC13_entropy_faults() {
 			vReach("generate-failed")
 		} else {
 			vAssert(err == nil && k != nil, "generate-key-succeeds-with-working-entropy")
+			// a key is only ever made from the full amount of entropy (short reads are continued)
+			vAssert(rd.given >= c.Params().BitSize/8+8, "generate-key-consumed-all-the-entropy-it-asks-for")
 			vReach("generate-ok")
 		}
 	case 1:
@@ -97,6 +99,7 @@ func VerifC13_entropy_faults() {
 			vReach("sign-failed")
 		} else if !rd.failed {
 			vAssert(err == nil && r != nil && s != nil, "sign-succeeds-with-working-entropy")
+			vAssert(rd.given >= 32, "sign-consumed-all-the-entropy-it-asks-for")
 			vReach("sign-ok")
 		}
 	case 2:
